@@ -12,6 +12,7 @@ from bitstring import Array, BitArray, Bits, BitStream, ConstBitStream, Dtype, p
 from rv import util
 from rv.util import B, CLASSES, call, rb
 
+AMBIENT = ['bytealigned', 'mxfp_overflow']      # options this property does not depend on: a quarter of the cases run with them switched
 PROP = 'C04'
 SHARDS = {'quick': 4, 'thorough': 16}
 RULE = ("history monitor over a population: every object an episode creates is registered with its observable value; "
